@@ -160,6 +160,15 @@ def fixed_modules() -> list[list[list[dict]]]:
         [[RESP("201", e_json(k=4)), RESP("200", e_json(k=9))]],
         [[RESP("200", e_json(k=0)), RESP("default", e_json(k=0))]],
         [[RESP("200", e_json(k=13), e_png())]],                                # JSON string served through response.text
+        # a "2XX" range next to concrete NON-priority 2xx codes (no 200/201/202/204), different schemas, both orders:
+        # every copy of _get_primary_response must pick the same primary, or the handler decodes with the wrong type
+        [[RESP("2XX", e_json(k=0)), RESP("203", e_json(k=1))]],
+        [[RESP("203", e_json(k=1)), RESP("2XX", e_json(k=0))]],
+        [[RESP("2XX", e_json(k=0)), RESP("206", e_json(k=1)), RESP("299")]],
+        [[RESP("299", e_json(k=4)), RESP("2XX", e_json(k=1)), RESP("205", e_json(k=0))]],
+        [[RESP("2XX", e_text()), RESP("226", e_json(k=0))]],
+        [[RESP("2XX"), RESP("203", e_json(k=0))]],
+        [[RESP("404", e_json(k=0)), RESP("2XX", e_json(k=1)), RESP("207", e_json(k=0)), RESP("default")]],
     ]
     return mods
 
@@ -189,10 +198,17 @@ def gen_resp(rng, code: str) -> dict:
     return RESP(code, *ents)
 
 
+NON_PRIORITY_2XX = ["203", "205", "206", "207", "226", "299"]
+
+
 def gen_op(rng) -> list[dict]:
-    codes = rng.sample(["200", "201", "202", "204", "206", "299"], rng.choice([1, 1, 2, 2, 3]))
-    if rng.random() < 0.06:
-        codes.append("2XX")
+    if rng.random() < 0.12:
+        # the range key together with concrete non-priority codes only (the primary is then decided by declaration order)
+        codes = rng.sample(NON_PRIORITY_2XX, rng.choice([1, 1, 2])) + ["2XX"]
+    else:
+        codes = rng.sample(["200", "201", "202", "204", "206", "299"], rng.choice([1, 1, 2, 2, 3]))
+        if rng.random() < 0.06:
+            codes.append("2XX")
     extra = rng.sample(["400", "404", "500", "default"], rng.choice([0, 0, 1, 2]))
     rs = [gen_resp(rng, c) for c in codes] + [RESP(c, *([e_json(k=0)] if rng.random() < 0.5 else [])) for c in extra]
     rng.shuffle(rs)
